@@ -21,6 +21,16 @@ package main
 // naming this claim, a claim with another name, the same name in another namespace, another kind /
 // version / group (c06CRefVariant), and the controller incarnation of each reconcile is built for XR
 // version v1 or v1alpha1 (c06Rec.XRV: the XRD's referenceable version switched, controller restarted).
+//
+// Hardening round (classes a, b, d, f, g): ONE reconciler (syncer, name generator, finalizer) per XR
+// version and scenario is driven through sequences of reconciles of DIFFERENT claims of the kind
+// (c06Scn.Peers: the same name in another namespace, names that extend the main claim's name; c06Rec.Who)
+// that draw from one name oracle and may reference the same XR, so that state carried from one claim
+// to the next shows up; every API call can fail with every error class the code could branch on
+// (c06FaultClasses: NotFound, AlreadyExists, Invalid, Forbidden, a Temporary() transport timeout,
+// context deadline) or lose its reply after it took effect ("lost"); the environment also creates XRs
+// (AlreadyExists on the client-side Create) and, in a world with other claims, binds them to other
+// claims between two calls. Monitors are kept per claim.
 
 import (
 	"context"
@@ -89,9 +99,21 @@ func c06XRefOf(name, ver string) c06Ref {
 	return c06Ref{Name: name, Group: c06XRGVK.Group, Version: ver, Kind: c06XRGVK.Kind}
 }
 
-// c06Self is this claim's reference (cm.GetReference()).
-func c06Self() c06Ref {
-	return c06Ref{Name: c06ClaimName, NS: c06NS, Group: c06ClaimGVK.Group, Version: c06ClaimGVK.Version, Kind: c06ClaimGVK.Kind}
+// c06Self is the main claim's reference (cm.GetReference()).
+func c06Self() c06Ref { return c06RefOf(c06Ident{c06NS, c06ClaimName}) }
+
+// c06RefOf is the reference of the claim `id` of the controller's claim kind.
+func c06RefOf(id c06Ident) c06Ref {
+	return c06Ref{Name: id.Name, NS: id.NS, Group: c06ClaimGVK.Group, Version: c06ClaimGVK.Version, Kind: c06ClaimGVK.Kind}
+}
+
+// c06Idents: the claims of the scenario; index = c06Rec.Who
+func c06Idents(s *c06Scn) []c06Ident {
+	ids := []c06Ident{{c06NS, c06ClaimName}}
+	for _, p := range s.Peers {
+		ids = append(ids, c06Ident{p.NS, p.Name})
+	}
+	return ids
 }
 
 // c06XRefTypes: the apiVersion/kind a claim's spec.resourceRef may carry, relative to the XR type the
@@ -173,17 +195,39 @@ type c06XR struct {
 type c06Env struct {
 	ID    int    `json:"id"`    // unique within the scenario; an XR-controller write stores it as status.observed
 	After int    `json:"after"` // applied right after call index `after` of the reconcile; -1 = before it starts
-	Act   string `json:"act"`   // xrTouch | xrRemove | xrDelete | claimDelete | claimTouch | claimRetype
+	Act   string `json:"act"`   // xrTouch | xrRemove | xrDelete | xrCreate | xrBind | claimDelete | claimTouch | claimRetype
 	Name  string `json:"name"`  // XR name (xr* actions)
 	G     string `json:"g"`     // claimRetype: group, version, kind written into spec.resourceRef (the name stays)
 	V     string `json:"v"`
 	K     string `json:"k"`
+	Who   int    `json:"who,omitempty"` // claim* actions: which claim (0 = the main claim, i = Peers[i-1])
+	// xrCreate: somebody creates XR `name` (absent until then) carrying this spec.claimRef (Name "" = unbound: a
+	// user; a claim that is not this scenario's = the controller of another claim).
+	// xrBind: another claim's controller sets spec.claimRef (and its claim labels) of the existing XR `name`.
+	Ref *c06Ref `json:"ref,omitempty"`
 }
 
 type c06Fault struct {
 	K int    `json:"k"`
-	O string `json:"o"` // fail | conflict | crashBefore | crashAfter
+	O string `json:"o"` // fail | conflict | crashBefore | crashAfter | lost (lostNoop: oracle) | one of c06FaultClasses
 }
+
+// c06FaultClasses: the API error classes injected at a call index (the call is not applied). The code under
+// test branches on NotFound (claim Get, XR Get, availability Get, the Get of Apply, Upgrade patch, Delete,
+// RemoveFinalizer) and on Conflict (Upgrade, AddFinalizer, Sync); everything else must be treated alike.
+// "notFound" on a read of an XR is answered as a server error instead (an XR read answers NotFound only
+// through the cache, where the name really was absent: c06Rec.XLag); "conflict" on a read likewise.
+// "lost": the call takes effect but the caller sees a timeout and goes on.
+var c06FaultClasses = []string{"notFound", "exists", "invalid", "forbidden", "timeout", "deadline"}
+
+// c06Peer is another claim of the same kind, reconciled by the same controller.
+type c06Peer struct {
+	NS    string   `json:"ns"`
+	Name  string   `json:"name"`
+	Claim c06Claim `json:"claim"`
+}
+
+type c06Ident struct{ NS, Name string }
 
 // c06Read is the name oracle's sibling: what the lagging cache served for the
 // claim (abstract content), recorded from the real run.
@@ -199,9 +243,10 @@ type c06Read struct {
 type c06XRead struct {
 	Name     string `json:"name"`
 	Found    bool   `json:"found"`
-	Stale    bool   `json:"stale"` // an older state of that name than the stored one
-	Ref      string `json:"ref"`   // canonical spec.claimRef: apiVersion|kind|namespace|name[+uid] ("" = unset)
-	Labeled  bool   `json:"labeled"`
+	Stale    bool   `json:"stale"`             // an older state of that name than the stored one
+	Ref      string `json:"ref"`               // canonical spec.claimRef: apiVersion|kind|namespace|name[+uid] ("" = unset)
+	Labeled  bool   `json:"labeled,omitempty"` // (older corpus lines)
+	Lbl      string `json:"lbl"`               // claim labels: "namespace/name" ("" = none)
 	Fin      bool   `json:"fin"`
 	Deleting bool   `json:"deleting"`
 	Status   bool   `json:"status"`
@@ -211,9 +256,10 @@ type c06XRead struct {
 }
 
 type c06Rec struct {
-	XRV    string     `json:"xrv"`  // the XR version this incarnation of the controller reconciles ("" = v1)
-	Lag    int        `json:"lag"`  // the cache serves the claim this many versions back (0 = fresh)
-	XLag   []int      `json:"xlag"` // the cache serves the k-th XR read of the reconcile this many states back
+	Who    int        `json:"who,omitempty"` // which claim is reconciled: 0 = the main claim ns/c, i = Peers[i-1]
+	XRV    string     `json:"xrv"`           // the XR version this incarnation of the controller reconciles ("" = v1)
+	Lag    int        `json:"lag"`           // the cache serves the claim this many versions back (0 = fresh)
+	XLag   []int      `json:"xlag"`          // the cache serves the k-th XR read of the reconcile this many states back
 	Faults []c06Fault `json:"faults"`
 	Env    []c06Env   `json:"env"`
 	// oracle, recorded from the real run
@@ -226,9 +272,12 @@ type c06Rec struct {
 type c06Scn struct {
 	Syncer string   `json:"syncer"` // "csa" | "ssa"
 	Claim  c06Claim `json:"claim"`
-	XRs    []c06XR  `json:"xrs"`
-	Cands  []string `json:"cands"` // name oracle: the names the generator draws, in order
-	Recs   []c06Rec `json:"recs"`
+	// other claims of the kind, reconciled by the SAME reconciler; non-empty = a world in which other
+	// claims' controllers act (they create XRs and bind XRs to their own claim)
+	Peers []c06Peer `json:"peers,omitempty"`
+	XRs   []c06XR   `json:"xrs"`
+	Cands []string  `json:"cands"` // name oracle: the names the generator draws, in order
+	Recs  []c06Rec  `json:"recs"`
 }
 
 // ---- observation ----
@@ -254,7 +303,7 @@ type c06OClaim struct {
 type c06OXR struct {
 	Name     string `json:"name"`
 	Ref      string `json:"ref"`
-	Labeled  bool   `json:"labeled"`
+	Lbl      string `json:"lbl"` // claim labels "namespace/name" ("" = none)
 	Fin      bool   `json:"fin"`
 	Deleting bool   `json:"deleting"`
 	Status   bool   `json:"status"`
@@ -324,11 +373,11 @@ func c06CRefStr(u *unstructured.Unstructured) string {
 	return s
 }
 
-func c06SeedClaim(st *Store, c c06Claim) {
+func c06SeedClaim(st *Store, c c06Claim, id c06Ident) {
 	u := &unstructured.Unstructured{Object: map[string]any{}}
 	u.SetGroupVersionKind(c06ClaimGVK)
-	u.SetNamespace(c06NS)
-	u.SetName(c06ClaimName)
+	u.SetNamespace(id.NS)
+	u.SetName(id.Name)
 	spec := map[string]any{"param": "v"}
 	if c.Ref.Name != "" {
 		spec["resourceRef"] = c06XRefMap(c.Ref)
@@ -378,6 +427,14 @@ func c06SeedXR(st *Store, x c06XR) {
 		mf = append(mf, map[string]any{"manager": claim.FieldOwnerXR, "operation": "Apply"})
 	case "ssabfa":
 		mf = append(mf, map[string]any{"manager": claim.FieldOwnerXR, "operation": "Apply"}, map[string]any{"manager": "before-first-apply", "operation": "Update"})
+	case "bfassa":
+		// the entries in the other order, between two unrelated managers: Upgrade loops over all of them
+		mf = append(mf, map[string]any{"manager": "kubectl", "operation": "Update"}, map[string]any{"manager": "before-first-apply", "operation": "Update"},
+			map[string]any{"manager": claim.FieldOwnerXR, "operation": "Apply"}, map[string]any{"manager": "apiextensions.crossplane.io/composite", "operation": "Apply"})
+	case "ssa3":
+		// the claim manager first, others after it (a later entry lacks what an earlier one has)
+		mf = append(mf, map[string]any{"manager": claim.FieldOwnerXR, "operation": "Apply"}, map[string]any{"manager": "crossplane", "operation": "Update"},
+			map[string]any{"manager": "apiextensions.crossplane.io/composite", "operation": "Apply"})
 	default:
 		mf = append(mf, map[string]any{"manager": "crossplane", "operation": "Update"})
 	}
@@ -388,15 +445,15 @@ func c06SeedXR(st *Store, x c06XR) {
 // c06RefClass classifies a stored XR's spec.claimRef the way the property does: "" (none), "self"
 // (apiVersion, kind, namespace and name are this claim's — what cmp.Equal on reference.Claim
 // compares; a uid key is not part of it), or "other:<first differing component>".
-func c06RefClass(u *unstructured.Unstructured) string {
+func c06RefClass(u *unstructured.Unstructured, id c06Ident) string {
 	m, ok, _ := unstructured.NestedMap(u.Object, "spec", "claimRef")
 	if !ok || m == nil {
 		return ""
 	}
 	switch {
-	case strOf(m, "name") != c06ClaimName:
+	case strOf(m, "name") != id.Name:
 		return "other:name"
-	case strOf(m, "namespace") != c06NS:
+	case strOf(m, "namespace") != id.NS:
 		return "other:namespace"
 	case strOf(m, "kind") != c06ClaimGVK.Kind:
 		return "other:kind"
@@ -406,9 +463,20 @@ func c06RefClass(u *unstructured.Unstructured) string {
 	return "self"
 }
 
-func c06Labeled(u *unstructured.Unstructured) bool {
+func c06Labeled(u *unstructured.Unstructured, id c06Ident) bool {
 	l := u.GetLabels()
-	return l[c06LblName] == c06ClaimName && l[c06LblNS] == c06NS
+	return l[c06LblName] == id.Name && l[c06LblNS] == id.NS
+}
+
+// c06Lbl: the claim labels of an XR as "namespace/name" ("" = it carries neither)
+func c06Lbl(u *unstructured.Unstructured) string {
+	l := u.GetLabels()
+	_, a := l[c06LblName]
+	_, b := l[c06LblNS]
+	if !a && !b {
+		return ""
+	}
+	return l[c06LblNS] + "/" + l[c06LblName]
 }
 
 func c06HasFin(u *unstructured.Unstructured, f string) bool {
@@ -429,7 +497,7 @@ func c06AbsClaim(u *unstructured.Unstructured) c06OClaim {
 
 func c06AbsXR(u *unstructured.Unstructured) c06OXR {
 	_, hasStatus := u.Object["status"]
-	return c06OXR{Name: u.GetName(), Ref: c06CRefStr(u), Labeled: c06Labeled(u), Fin: len(u.GetFinalizers()) > 0,
+	return c06OXR{Name: u.GetName(), Ref: c06CRefStr(u), Lbl: c06Lbl(u), Fin: len(u.GetFinalizers()) > 0,
 		Deleting: u.GetDeletionTimestamp() != nil, Status: hasStatus}
 }
 
@@ -443,10 +511,39 @@ func c06XRs(st *Store) []c06OXR {
 }
 
 // c06ApplyEnv performs one environment action out of band.
-func c06ApplyEnv(st *Store, e c06Env, tick *int) {
+func c06ApplyEnv(st *Store, e c06Env, tick *int, ids []c06Ident) {
 	xgk, cgk := c06XRGVK.GroupKind(), c06ClaimGVK.GroupKind()
 	*tick++
+	id := ids[0]
+	if e.Who > 0 && e.Who < len(ids) {
+		id = ids[e.Who]
+	}
+	setRef := func(u *unstructured.Unstructured) {
+		if e.Ref == nil || e.Ref.Name == "" {
+			return
+		}
+		_ = unstructured.SetNestedMap(u.Object, c06ClaimRefMap(*e.Ref), "spec", "claimRef")
+		l := u.GetLabels()
+		if l == nil {
+			l = map[string]string{}
+		}
+		l[c06LblName], l[c06LblNS] = e.Ref.Name, e.Ref.NS
+		u.SetLabels(l)
+	}
 	switch e.Act {
+	case "xrCreate":
+		// a user creates an (unbound) XR by hand, or another claim's controller creates its XR
+		if st.Peek(xgk, "", e.Name) == nil {
+			u := &unstructured.Unstructured{Object: map[string]any{"spec": map[string]any{"param": "v"}}}
+			u.SetGroupVersionKind(c06XRGVK)
+			u.SetName(e.Name)
+			setRef(u)
+			mdOf(u.Object)["managedFields"] = []any{map[string]any{"manager": "crossplane", "operation": "Update"}}
+			st.Seed(u)
+		}
+	case "xrBind":
+		// another claim's controller binds the XR to its claim
+		st.Mutate(xgk, "", e.Name, setRef)
 	case "xrTouch":
 		// what the XR controller does: finalizer, status; never spec.claimRef
 		st.Mutate(xgk, "", e.Name, func(u *unstructured.Unstructured) {
@@ -468,11 +565,11 @@ func c06ApplyEnv(st *Store, e c06Env, tick *int) {
 			st.Remove(xgk, "", e.Name)
 		}
 	case "claimDelete":
-		if u := st.Peek(cgk, c06NS, c06ClaimName); u != nil {
+		if u := st.Peek(cgk, id.NS, id.Name); u != nil {
 			if len(u.GetFinalizers()) == 0 {
-				st.Remove(cgk, c06NS, c06ClaimName)
+				st.Remove(cgk, id.NS, id.Name)
 			} else {
-				st.Mutate(cgk, c06NS, c06ClaimName, func(u *unstructured.Unstructured) {
+				st.Mutate(cgk, id.NS, id.Name, func(u *unstructured.Unstructured) {
 					if u.GetDeletionTimestamp() == nil {
 						t := metav1.Unix(1700000000, 0)
 						u.SetDeletionTimestamp(&t)
@@ -483,7 +580,7 @@ func c06ApplyEnv(st *Store, e c06Env, tick *int) {
 	case "claimRetype":
 		// somebody (a restore from a backup taken under another served version, a hand edit) rewrites
 		// apiVersion/kind of spec.resourceRef; the name stays
-		st.Mutate(cgk, c06NS, c06ClaimName, func(u *unstructured.Unstructured) {
+		st.Mutate(cgk, id.NS, id.Name, func(u *unstructured.Unstructured) {
 			m, ok, _ := unstructured.NestedMap(u.Object, "spec", "resourceRef")
 			if !ok || m == nil {
 				return
@@ -497,7 +594,7 @@ func c06ApplyEnv(st *Store, e c06Env, tick *int) {
 	case "claimTouch":
 		// a user edit of the claim that bumps its resourceVersion; a reserved label key is
 		// never propagated to the XR (field-level sync is C07's subject)
-		st.Mutate(cgk, c06NS, c06ClaimName, func(u *unstructured.Unstructured) {
+		st.Mutate(cgk, id.NS, id.Name, func(u *unstructured.Unstructured) {
 			l := u.GetLabels()
 			if l == nil {
 				l = map[string]string{}
@@ -519,7 +616,50 @@ func c06Outcome(o string) Outcome {
 	case "crashAfter":
 		return CrashAfter
 	}
-	return OK
+	for _, c := range c06FaultClasses {
+		if o == c {
+			return Fail // the store refuses the call; c06Cache.fix substitutes the error of that class
+		}
+	}
+	return OK // incl. "lost": the call takes effect, c06Cache.fix loses the reply
+}
+
+// c06Timeout is a transport-level error that is Temporary() and Timeout() (net.Error), not an API status.
+type c06Timeout struct{}
+
+func (c06Timeout) Error() string   { return "simstore: injected i/o timeout" }
+func (c06Timeout) Timeout() bool   { return true }
+func (c06Timeout) Temporary() bool { return true }
+
+// c06ClassErr builds the error of an injected class for a call addressed to gk/name.
+func c06ClassErr(class string, ci CallInfo) error {
+	gr := schema.GroupResource{Group: c06XRGVK.Group, Resource: strings.ToLower(strings.SplitN(ci.GK, ".", 2)[0]) + "s"}
+	switch class {
+	case "notFound":
+		if ci.Verb == "get" && ci.GK == gkString(c06XRGVK.GroupKind()) {
+			break // see c06FaultClasses
+		}
+		return kerrors.NewNotFound(gr, ci.Name)
+	case "exists":
+		return kerrors.NewAlreadyExists(gr, ci.Name)
+	case "invalid":
+		return kerrors.NewInvalid(schema.GroupKind{Group: gr.Group, Kind: strings.SplitN(ci.GK, ".", 2)[0]}, ci.Name, nil)
+	case "forbidden":
+		return kerrors.NewForbidden(gr, ci.Name, fmt.Errorf("simstore: injected"))
+	case "timeout":
+		return c06Timeout{}
+	case "deadline":
+		return context.DeadlineExceeded
+	}
+	return kerrors.NewInternalError(fmt.Errorf("simstore: injected server error"))
+}
+
+// c06ErrClass: the error classes the model distinguishes (Forbidden, timeouts and deadlines are "other")
+func c06ErrClass(err error) string {
+	if c := errClass(err); c != "forbidden" {
+		return c
+	}
+	return "other"
 }
 
 // c06NewReconciler wires the claim reconciler the way offered/reconciler.go does.
@@ -530,7 +670,70 @@ type c06Cache struct {
 	*Store
 	xh     map[string][]*unstructured.Unstructured // states of each XR name, oldest first; nil = absent
 	seeded bool
-	rec    *c06Rec // current reconcile (lags in, oracle out)
+	rec    *c06Rec          // current reconcile (lags in, oracle out)
+	who    c06Ident         // the claim being reconciled
+	faults map[int]c06Fault // fault plan of the current reconcile
+	// what the read this reconcile DECIDED on returned for each XR name, relative to `who`: "absent" | "" (no
+	// claimRef) | "self" | "other:<component>". Deciding reads: Reconcile's Get of the referenced XR (the first XR
+	// read of a reconcile) and every availability Get of the name generator (the one right after a name was
+	// drawn; the latest counts when a name is drawn twice); the Get inside the client-side Apply is not looked at
+	// by the code and only counts for a name no deciding read returned anything for.
+	views map[string]string
+	draws int // names drawn by the generator in this reconcile
+	drawn int // ... of which an availability Get was seen
+}
+
+func (c *c06Cache) setView(name, v string) {
+	_, seen := c.views[name]
+	deciding := len(c.rec.XReads) == 0 || c.draws > c.drawn
+	if deciding || !seen {
+		c.views[name] = v
+	}
+}
+
+// fix post-processes the call just logged (if any): substitutes the error of an injected class, or loses
+// the reply of a call that took effect ("lost": the caller's object keeps its content, as after a timeout).
+func (c *c06Cache) fix(n0 int, obj client.Object, before map[string]any, err error) error {
+	if len(c.Store.Log) == n0 || c.rec == nil {
+		return err // the process is dead: the call never happened
+	}
+	last := &c.Store.Log[len(c.Store.Log)-1]
+	f, ok := c.faults[last.Index]
+	if !ok {
+		return err
+	}
+	switch {
+	case (f.O == "lost" || f.O == "lostNoop") && last.Outcome == "ok":
+		if before != nil {
+			obj.(runtime.Unstructured).SetUnstructuredContent(before)
+		}
+		// A write that changed nothing (the API server then keeps the resourceVersion) and whose reply is lost is
+		// indistinguishable from one that never arrived; the model, in which every accepted write yields a new
+		// resourceVersion, is told so (oracle: the fault is rewritten in the scenario).
+		o := "lost"
+		if last.IsWrite() && last.Applied && !last.Changed {
+			o, last.Applied = "lostNoop", false
+		}
+		for i := range c.rec.Faults {
+			if c.rec.Faults[i].K == last.Index {
+				c.rec.Faults[i].O = o
+			}
+		}
+		last.Outcome, last.Err = o, "other"
+		return c06Timeout{}
+	case last.Outcome == "fail" && f.O != "fail":
+		e := c06ClassErr(f.O, *last)
+		last.Outcome, last.Err = f.O, c06ErrClass(e)
+		return e
+	}
+	return err
+}
+
+func c06Content(obj client.Object) map[string]any {
+	if u, ok := obj.(runtime.Unstructured); ok {
+		return runtime.DeepCopyJSON(u.UnstructuredContent())
+	}
+	return nil
 }
 
 // snapshot appends the current state of every XR name whose state changed.
@@ -560,7 +763,8 @@ func (c *c06Cache) snapshot() {
 func (c *c06Cache) Get(ctx context.Context, key client.ObjectKey, obj client.Object, opts ...client.GetOption) error {
 	gvk, err := apiutil.GVKForObject(obj, c.Store.Scheme())
 	if err != nil || gvk.GroupKind() != c06XRGVK.GroupKind() {
-		return c.Store.Get(ctx, key, obj, opts...)
+		n0, before := len(c.Store.Log), c06Content(obj)
+		return c.fix(n0, obj, before, c.Store.Get(ctx, key, obj, opts...))
 	}
 	n0 := len(c.Store.Log)
 	before := runtime.DeepCopyJSON(obj.(runtime.Unstructured).UnstructuredContent())
@@ -575,9 +779,10 @@ func (c *c06Cache) Get(ctx context.Context, key client.ObjectKey, obj client.Obj
 	occ := len(c.rec.XReads)
 	rd := c06XRead{Name: key.Name}
 	last := &c.Store.Log[len(c.Store.Log)-1]
-	if last.Outcome != "ok" {
+	if f, isF := c.faults[last.Index]; last.Outcome != "ok" || (isF && (f.O == "lost" || f.O == "lostNoop")) {
 		c.rec.XReads = append(c.rec.XReads, rd) // injected fault: nothing was read
-		return err
+		c.drawn = c.draws
+		return c.fix(n0, obj, before, err)
 	}
 	if !ok {
 		h = []*unstructured.Unstructured{nil}
@@ -627,8 +832,12 @@ func (c *c06Cache) Get(ctx context.Context, key client.ObjectKey, obj client.Obj
 		u := &unstructured.Unstructured{Object: obj.(runtime.Unstructured).UnstructuredContent()}
 		a := c06AbsXR(u)
 		gen, _, _ := unstructured.NestedInt64(u.Object, "status", "observed")
-		rd.Found, rd.Ref, rd.Labeled, rd.Fin, rd.Deleting, rd.Status, rd.Gen = true, a.Ref, a.Labeled, a.Fin, a.Deleting, a.Status, int(gen)
+		rd.Found, rd.Ref, rd.Lbl, rd.Fin, rd.Deleting, rd.Status, rd.Gen = true, a.Ref, a.Lbl, a.Fin, a.Deleting, a.Status, int(gen)
+		c.setView(key.Name, c06RefClass(u, c.who))
+	} else if kerrors.IsNotFound(err) {
+		c.setView(key.Name, "absent")
 	}
+	c.drawn = c.draws
 	if os.Getenv("SIMSTORE_DEBUG") != "" {
 		rvs := []string{}
 		for _, x := range h {
@@ -656,15 +865,45 @@ func (c *c06Cache) keepVersion(obj client.Object, call func() error) error {
 }
 
 func (c *c06Cache) Create(ctx context.Context, obj client.Object, opts ...client.CreateOption) error {
-	return c.keepVersion(obj, func() error { return c.Store.Create(ctx, obj, opts...) })
+	n0, before := len(c.Store.Log), c06Content(obj)
+	return c.fix(n0, obj, before, c.keepVersion(obj, func() error { return c.Store.Create(ctx, obj, opts...) }))
 }
 
 func (c *c06Cache) Update(ctx context.Context, obj client.Object, opts ...client.UpdateOption) error {
-	return c.keepVersion(obj, func() error { return c.Store.Update(ctx, obj, opts...) })
+	n0, before := len(c.Store.Log), c06Content(obj)
+	return c.fix(n0, obj, before, c.keepVersion(obj, func() error { return c.Store.Update(ctx, obj, opts...) }))
 }
 
 func (c *c06Cache) Patch(ctx context.Context, obj client.Object, patch client.Patch, opts ...client.PatchOption) error {
-	return c.keepVersion(obj, func() error { return c.Store.Patch(ctx, obj, patch, opts...) })
+	n0, before := len(c.Store.Log), c06Content(obj)
+	return c.fix(n0, obj, before, c.keepVersion(obj, func() error { return c.Store.Patch(ctx, obj, patch, opts...) }))
+}
+
+func (c *c06Cache) Delete(ctx context.Context, obj client.Object, opts ...client.DeleteOption) error {
+	n0, before := len(c.Store.Log), c06Content(obj)
+	return c.fix(n0, obj, before, c.Store.Delete(ctx, obj, opts...))
+}
+
+// c06Sub: the status writer, with the same fault post-processing
+type c06Sub struct {
+	c *c06Cache
+	w client.SubResourceWriter
+}
+
+func (c *c06Cache) Status() client.SubResourceWriter { return c06Sub{c, c.Store.Status()} }
+
+func (w c06Sub) Create(ctx context.Context, obj client.Object, sub client.Object, opts ...client.SubResourceCreateOption) error {
+	return w.w.Create(ctx, obj, sub, opts...)
+}
+
+func (w c06Sub) Update(ctx context.Context, obj client.Object, opts ...client.SubResourceUpdateOption) error {
+	n0, before := len(w.c.Store.Log), c06Content(obj)
+	return w.c.fix(n0, obj, before, w.w.Update(ctx, obj, opts...))
+}
+
+func (w c06Sub) Patch(ctx context.Context, obj client.Object, patch client.Patch, opts ...client.SubResourcePatchOption) error {
+	n0, before := len(w.c.Store.Log), c06Content(obj)
+	return w.c.fix(n0, obj, before, w.w.Patch(ctx, obj, patch, opts...))
 }
 
 func c06NewReconciler(st client.Client, flags *feature.Flags, namer func(string) string, xrVersion string) *claim.Reconciler {
@@ -691,7 +930,11 @@ func c06Run(s *c06Scn) (c06Obs, []Mon) {
 	st := NewStore(runtime.NewScheme())
 	st.KeepHistory = true
 	st.Namespaced[c06ClaimGVK.GroupKind()] = true
-	c06SeedClaim(st, s.Claim)
+	ids := c06Idents(s)
+	c06SeedClaim(st, s.Claim, ids[0])
+	for i, p := range s.Peers {
+		c06SeedClaim(st, p.Claim, ids[i+1])
+	}
 	for _, x := range s.XRs {
 		c06SeedXR(st, x)
 	}
@@ -701,6 +944,7 @@ func c06Run(s *c06Scn) (c06Obs, []Mon) {
 	}
 	nameIdx := 0
 	var curRec *c06Rec
+	var namerCache *c06Cache
 	namer := func(base string) string {
 		var n string
 		if nameIdx < len(s.Cands) {
@@ -712,11 +956,16 @@ func c06Run(s *c06Scn) (c06Obs, []Mon) {
 		if curRec != nil {
 			curRec.Names = append(curRec.Names, n)
 		}
+		if namerCache != nil {
+			namerCache.draws++
+		}
 		return n
 	}
 	cache := &c06Cache{Store: st, xh: map[string][]*unstructured.Unstructured{}}
+	namerCache = cache
 	cache.snapshot()
-	// one controller incarnation per XR version: switching the XRD's referenceable version restarts it
+	// ONE controller incarnation (reconciler, syncer, name generator, finalizer) per XR version for the whole
+	// scenario, whichever claims it reconciles: switching the XRD's referenceable version restarts it
 	recons := map[string]*claim.Reconciler{}
 	reconFor := func(ver string) *claim.Reconciler {
 		if ver == "" {
@@ -738,51 +987,100 @@ func c06Run(s *c06Scn) (c06Obs, []Mon) {
 			mons = append(mons, Mon{Sig: sig, Why: why})
 		}
 	}
-	created := map[string]bool{} // XR names created by the claim controller over the whole history
+	// per claim: XR names created by the claim controller on its behalf over the whole history, and the
+	// last spec.resourceRef.name seen stored
+	created := make([]map[string]bool, len(ids))
+	lastRef := make([]string, len(ids))
+	for i, id := range ids {
+		created[i] = map[string]bool{}
+		lastRef[i] = c06XRefName(st.Peek(cgk, id.NS, id.Name))
+	}
 	tick := 0
 	obs := c06Obs{Recs: []c06ORec{}}
+
+	// who last changed (or first stored) the spec.claimRef of each XR: the index of the claim whose reconcile
+	// did it, or -1 for the environment (seed, XR controller, user, the controller of a claim outside the scenario)
+	lastCRef, setBy := map[string]string{}, map[string]int{}
+	noteBinders := func(by int) {
+		cur := map[string]bool{}
+		for _, u := range st.OfKind(xgk) {
+			cur[u.GetName()] = true
+			if r, ok := lastCRef[u.GetName()]; !ok || r != c06CRefStr(u) {
+				lastCRef[u.GetName()], setBy[u.GetName()] = c06CRefStr(u), by
+			}
+		}
+		for n := range lastCRef {
+			if !cur[n] {
+				delete(lastCRef, n)
+				delete(setBy, n)
+			}
+		}
+	}
+	noteBinders(-1)
 
 	// monitor state captured right before each call
 	var preXRExists bool
 	var preXRRef string
 	var preClaimRef string
 	var preClaimExists bool
-	lastRef := c06XRefName(st.Peek(cgk, c06NS, c06ClaimName))
 
 	checkStore := func(when string) {
-		// (1) never more than one XR bound to this claim: its claimRef is this claim's reference in
-		// apiVersion, kind, namespace and name (or, without a claimRef, it carries this claim's labels;
-		// the labels alone do not identify the claim: they have no kind / apiVersion)
-		n := 0
-		var ns []string
-		for _, u := range st.OfKind(xgk) {
-			if cl := c06RefClass(u); cl == "self" || (cl == "" && c06Labeled(u)) {
-				n++
-				ns = append(ns, u.GetName())
+		for i, id := range ids {
+			tag := ""
+			if len(ids) > 1 {
+				tag = fmt.Sprintf(" [claim %s/%s]", id.NS, id.Name)
 			}
-		}
-		sort.Strings(ns)
-		if n > 1 {
-			addMon("C06:second-xr", fmt.Sprintf("%s: %d XRs carry this claim's claimRef/labels: %v", when, n, ns))
-		}
-		// (2) the XR named by spec.resourceRef is set-once (apiVersion/kind of the reference may be
-		// rewritten to the controller's current XR type; the NAME never changes)
-		if cl := st.Peek(cgk, c06NS, c06ClaimName); cl != nil {
+			// (1) never more than one XR bound to a claim: its claimRef is that claim's reference in
+			// apiVersion, kind, namespace and name (or, without a claimRef, it carries the claim's labels;
+			// the labels alone do not identify the claim: they have no kind / apiVersion)
+			var bound, ns []string
+			for _, u := range st.OfKind(xgk) {
+				cl := c06RefClass(u, id)
+				if cl == "self" {
+					bound = append(bound, u.GetName())
+				}
+				if cl == "self" || (cl == "" && c06Labeled(u, id)) {
+					ns = append(ns, u.GetName())
+				}
+			}
+			sort.Strings(ns)
+			if len(ns) > 1 {
+				addMon("C06:second-xr", fmt.Sprintf("%s: %d XRs carry this claim's claimRef/labels: %v%s", when, len(ns), ns, tag))
+			}
+			cl := st.Peek(cgk, id.NS, id.Name)
+			if cl == nil {
+				continue
+			}
+			// (2) the XR named by spec.resourceRef is set-once (apiVersion/kind of the reference may be
+			// rewritten to the controller's current XR type; the NAME never changes)
 			ref := c06XRefName(cl)
-			if lastRef != "" && ref != lastRef {
-				addMon("C06:ref-rebound", fmt.Sprintf("%s: claim spec.resourceRef.name changed from %q to %q (reference now %q)", when, lastRef, ref, c06XRefStr(cl)))
+			if lastRef[i] != "" && ref != lastRef[i] {
+				addMon("C06:ref-rebound", fmt.Sprintf("%s: claim spec.resourceRef.name changed from %q to %q (reference now %q)%s", when, lastRef[i], ref, c06XRefStr(cl), tag))
 			}
-			lastRef = ref
+			lastRef[i] = ref
+			// (3) the one XR bound to the claim is the one its durable reference names
+			for _, n := range bound {
+				if n != ref {
+					addMon("C06:bound-not-referenced", fmt.Sprintf("%s: XR %q carries this claim's claimRef but the claim's stored spec.resourceRef.name is %q%s", when, n, ref, tag))
+				}
+			}
 		}
 	}
 
 	for ri := range s.Recs {
 		rec := &s.Recs[ri]
+		who := 0
+		if rec.Who > 0 && rec.Who < len(ids) {
+			who = rec.Who
+		}
+		me := ids[who]
 		st.Revive()
 		base := len(st.Log)
 		faults := map[int]Outcome{}
+		cache.faults = map[int]c06Fault{}
 		for _, f := range rec.Faults {
 			faults[f.K] = c06Outcome(f.O)
+			cache.faults[f.K] = f
 		}
 		st.Plan = func(c CallInfo) Outcome { return faults[c.Index] }
 		rec.Read = c06Read{}
@@ -790,10 +1088,10 @@ func c06Run(s *c06Scn) (c06Obs, []Mon) {
 		rec.Names = []string{}
 		rec.XReads = []c06XRead{}
 		curRec = rec
-		cache.rec = rec
+		cache.rec, cache.who, cache.views, cache.draws, cache.drawn = rec, me, map[string]string{}, 0, 0
 		claimReads := 0
 		st.Lag = func(k objKey, versions int) int {
-			if k.GK != cgk {
+			if k.GK != cgk || k.NS != me.NS || k.Name != me.Name {
 				return 0
 			}
 			// the cache lags for the reconcile's first read of the claim; a later read of
@@ -818,32 +1116,61 @@ func c06Run(s *c06Scn) (c06Obs, []Mon) {
 			preXRExists, preXRRef = false, ""
 			if c.GK == xgks && c.IsWrite() {
 				if u := st.Peek(xgk, "", c.Name); u != nil {
-					preXRExists, preXRRef = true, c06RefClass(u)
+					preXRExists, preXRRef = true, c06RefClass(u, me)
 				}
 			}
-			cl := st.Peek(cgk, c06NS, c06ClaimName)
+			cl := st.Peek(cgk, me.NS, me.Name)
 			preClaimExists = cl != nil
 			preClaimRef = c06XRefName(cl)
 		}
 		st.After = func(c CallInfo) {
 			if c.GK == xgks && c.IsWrite() && c.Applied && !c.DryRun {
 				if preXRExists && strings.HasPrefix(preXRRef, "other") {
-					addMon("C06:hijack", fmt.Sprintf("%s %s addressed to XR %q whose claimRef names another claim (differs from this claim's reference in: %s)", c.Verb, c.PatchType, c.Name, strings.TrimPrefix(preXRRef, "other:")))
+					// A write or delete took effect on an XR whose stored claimRef names another claim. What did
+					// the bound check of THIS reconcile decide on? (the first read of that name)
+					view, read := cache.views[c.Name]
+					// requests that carry the resourceVersion of the XR as read cannot take effect on a state
+					// other than the one read: the managed-fields JSON patch, and the client-side syncer's merge
+					// patch when Reconcile's Get found the XR
+					guarded := c.Verb == "patch" && (c.PatchType == "json" || (c.PatchType == "merge" && view != "absent"))
+					why := fmt.Sprintf("%s %s addressed to XR %q whose claimRef names another claim than %s/%s (differs from its reference in: %s)", c.Verb, c.PatchType, c.Name, me.NS, me.Name, strings.TrimPrefix(preXRRef, "other:"))
+					// D34 is only what another claim's controller explains: the world has other claims, and the stored
+					// claimRef was put there by somebody else than this claim's reconciles
+					by, known := setBy[c.Name]
+					explained := len(s.Peers) > 0 && known && by != who
+					switch {
+					case !read:
+						addMon("C06:hijack", why+"; this reconcile never read that XR")
+					case !explained:
+						addMon("C06:hijack", why+"; no other claim's controller set that claimRef")
+					case strings.HasPrefix(view, "other"):
+						addMon("C06:hijack", why+"; the XR as read by this reconcile already named the other claim")
+					case guarded:
+						addMon("C06:hijack", why+fmt.Sprintf("; the request should carry the resourceVersion of the XR as read (then %s)", map[bool]string{true: "absent", false: "not bound to another claim"}[view == "absent"]))
+					default:
+						// the XR was (re)bound by another claim's controller after the state this reconcile read
+						// (cache lag/miss or a write between the read and this call) and the request is unconditional
+						addMon("C06:foreign-xr-written-after-raced-read", why+fmt.Sprintf("; the XR as read by this reconcile was %s; the request carries no resourceVersion", map[string]string{"absent": "absent", "": "unbound", "self": "bound to this claim"}[view]))
+					}
 				}
 				if !preXRExists && (c.Verb == "create" || (c.Verb == "patch" && c.PatchType == "apply")) {
 					// the claim controller created XR c.Name
 					if !preClaimExists || preClaimRef != c.Name {
-						addMon("C06:create-before-ref", fmt.Sprintf("XR %q created while the stored claim's spec.resourceRef.name is %q (claim exists: %v)", c.Name, preClaimRef, preClaimExists))
+						addMon("C06:create-before-ref", fmt.Sprintf("XR %q created while the stored spec.resourceRef.name of claim %s/%s is %q (claim exists: %v)", c.Name, me.NS, me.Name, preClaimRef, preClaimExists))
 					}
-					created[c.Name] = true
-					if len(created) > 1 {
+					created[who][c.Name] = true
+					if len(created[who]) > 1 {
 						var ns []string
-						for n := range created {
+						for n := range created[who] {
 							ns = append(ns, n)
 						}
 						sort.Strings(ns)
-						addMon("C06:second-xr", fmt.Sprintf("the claim controller created XRs under %d different names: %v", len(ns), ns))
+						addMon("C06:second-xr", fmt.Sprintf("the claim controller created XRs under %d different names for claim %s/%s: %v", len(ns), me.NS, me.Name, ns))
 					}
+				}
+				if preXRExists && preClaimExists && preClaimRef != c.Name {
+					// writes and deletes go to the XR the claim durably references, never to another one
+					addMon("C06:write-off-ref", fmt.Sprintf("%s %s addressed to XR %q while the stored spec.resourceRef.name of claim %s/%s is %q (claim exists: %v)", c.Verb, c.PatchType, c.Name, me.NS, me.Name, preClaimRef, preClaimExists))
 				}
 			}
 			if c.GK == xgks && c.Verb == "patch" && c.PatchType == "json" {
@@ -855,24 +1182,27 @@ func c06Run(s *c06Scn) (c06Obs, []Mon) {
 				}
 			}
 			checkStore(fmt.Sprintf("reconcile %d after call %d", ri, c.Index))
+			noteBinders(who)
 			cache.snapshot()
 			for _, e := range rec.Env {
 				if e.After == c.Index {
-					c06ApplyEnv(st, e, &tick)
+					c06ApplyEnv(st, e, &tick, ids)
+					noteBinders(-1)
 					cache.snapshot()
 				}
 			}
 		}
 		for _, e := range rec.Env {
 			if e.After < 0 {
-				c06ApplyEnv(st, e, &tick)
+				c06ApplyEnv(st, e, &tick, ids)
+				noteBinders(-1)
 				cache.snapshot()
 			}
 		}
 		var res reconcile.Result
 		var err error
 		if p := Guard(func() {
-			res, err = reconFor(rec.XRV).Reconcile(context.Background(), reconcile.Request{NamespacedName: types.NamespacedName{Namespace: c06NS, Name: c06ClaimName}})
+			res, err = reconFor(rec.XRV).Reconcile(context.Background(), reconcile.Request{NamespacedName: types.NamespacedName{Namespace: me.NS, Name: me.Name}})
 		}); p != "" {
 			addMon("C06:panic", p)
 		}
@@ -886,7 +1216,11 @@ func c06Run(s *c06Scn) (c06Obs, []Mon) {
 			} else if c.GK != cgks {
 				obj = c.GK
 			}
-			o.Calls = append(o.Calls, c06Call{Verb: c.Verb, Obj: obj, Name: c.Name, Sub: c.Sub, PT: c.PatchType, Outcome: c.Outcome, Err: c.Err, Applied: c.Applied})
+			name := c.Name
+			if obj == "claim" {
+				name = c.NS + "/" + c.Name
+			}
+			o.Calls = append(o.Calls, c06Call{Verb: c.Verb, Obj: obj, Name: name, Sub: c.Sub, PT: c.PatchType, Outcome: c.Outcome, Err: c.Err, Applied: c.Applied})
 		}
 		switch {
 		case st.Crashed():
@@ -898,7 +1232,7 @@ func c06Run(s *c06Scn) (c06Obs, []Mon) {
 		default:
 			o.Res = "ok"
 		}
-		o.Claim = c06AbsClaim(st.Peek(cgk, c06NS, c06ClaimName))
+		o.Claim = c06AbsClaim(st.Peek(cgk, me.NS, me.Name))
 		o.XRs = c06XRs(st)
 		obs.Recs = append(obs.Recs, o)
 		checkStore(fmt.Sprintf("after reconcile %d", ri))
@@ -923,8 +1257,125 @@ func c06GenXR(r *Rng, name string, variant string) c06XR {
 	x.Fin = r.Chance(2, 3)
 	x.Deleting = x.Fin && r.Chance(1, 6)
 	x.Status = r.Chance(1, 2)
-	x.MF = Pick(r, []string{"legacy", "legacy", "ssa", "ssabfa"})
+	x.MF = Pick(r, []string{"legacy", "legacy", "legacy", "ssa", "ssa", "ssabfa", "ssabfa", "bfassa", "ssa3"})
 	return x
+}
+
+// c06PeerPool: the other claims a scenario may hold: the same NAME in another namespace (same generateName
+// prefix, same claim-name label), and names the main claim's name is a string prefix of (one of them
+// looks like a generated XR name)
+var c06PeerPool = []c06Ident{{"ns2", "c"}, {"ns", "cc"}, {"ns", "c-1"}, {"ns2", "c"}}
+
+var c06FaultOutcomes = []string{"fail", "conflict", "crashBefore", "crashAfter", "crashAfter", "lost",
+	"notFound", "notFound", "exists", "invalid", "forbidden", "timeout", "deadline"}
+
+// c06GenPeers turns the scenario into a world with 1-2 more claims of the kind, reconciled by the same
+// controller in between the main claim's reconciles: they draw from the same name oracle, may reference the
+// XR the main claim references (statically provisioned XR claimed twice), own seeded XRs, and other claims'
+// controllers act between two calls (xrCreate / xrBind with a claimRef of a claim outside the scenario).
+func c06GenPeers(r *Rng, s *c06Scn, envID *int) {
+	perm := r.Perm(3)
+	np := Pick(r, []int{1, 1, 2})
+	taken := map[string]bool{} // XR names already owned by a claim of the scenario
+	for _, x := range s.XRs {
+		if cl := c06CRefClass(x.Ref); cl == "self" || cl == "selfuid" {
+			taken[x.Name] = true
+		}
+	}
+	for i := 0; i < np; i++ {
+		id := c06PeerPool[perm[i]]
+		p := c06Peer{NS: id.NS, Name: id.Name}
+		refName := ""
+		switch r.Intn(8) {
+		case 0, 1, 2: // brand new
+			p.Claim = c06Claim{Fin: r.Chance(1, 3)}
+		case 3, 4, 5: // references a seeded XR: its own, an unbound one, or the one another claim references / owns
+			refName = Pick(r, c06SeedNames)
+			p.Claim = c06Claim{Fin: r.Chance(3, 4)}
+		case 6: // references a name a claim is about to generate
+			refName = Pick(r, []string{"c-1", "c-2"})
+			p.Claim = c06Claim{Fin: r.Chance(1, 2)}
+		default:
+			refName = Pick(r, []string{"", "x-a", "x-b"})
+			p.Claim = c06Claim{Fin: true, Deleting: true}
+		}
+		p.Claim.Ref = c06GenXRef(r, refName)
+		p.Claim.Foreground = r.Chance(1, 4)
+		s.Peers = append(s.Peers, p)
+		// the XR it references may already be bound to it (only one claim of the scenario owns an XR)
+		if refName != "" && !taken[refName] && r.Chance(1, 2) {
+			for j := range s.XRs {
+				if s.XRs[j].Name == refName {
+					s.XRs[j].Ref = c06RefOf(id)
+					s.XRs[j].Ref.UID = r.Chance(1, 6)
+					s.XRs[j].Labeled = false
+					taken[refName] = true
+				}
+			}
+		}
+	}
+	// more reconciles, of all claims, in any order (the main claim's stay in their relative order)
+	n := len(s.Recs) + r.Range(1, 3)
+	for len(s.Recs) < n {
+		s.Recs = append(s.Recs, c06GenRec(r, s.Recs[0].XRV, envID, true))
+	}
+	for i := range s.Recs {
+		if r.Chance(1, 2) {
+			s.Recs[i].Who = r.Range(1, len(s.Peers))
+		}
+		for j := range s.Recs[i].Env {
+			e := &s.Recs[i].Env[j]
+			if strings.HasPrefix(e.Act, "claim") && r.Chance(1, 2) {
+				e.Who = r.Range(0, len(s.Peers))
+			}
+		}
+	}
+}
+
+// c06GenRec: one reconcile: cache lags, faults, environment actions. world = other claims' controllers act.
+func c06GenRec(r *Rng, xrv string, envID *int, world bool) c06Rec {
+	names := append([]string{}, c06SeedNames...)
+	names = append(names, "c-1", "c-2")
+	rec := c06Rec{XRV: xrv, Faults: []c06Fault{}, Env: []c06Env{}, XLag: []int{}}
+	if r.Chance(1, 2) {
+		rec.Lag = r.Range(1, c06MaxLag)
+	}
+	if r.Chance(1, 3) {
+		for j, n := 0, r.Range(1, 4); j < n; j++ {
+			rec.XLag = append(rec.XLag, Pick(r, []int{0, 1, 1, 2, 3}))
+		}
+	}
+	for j, n := 0, Pick(r, []int{0, 1, 1, 1, 2}); j < n; j++ {
+		rec.Faults = append(rec.Faults, c06Fault{K: r.Intn(9), O: Pick(r, c06FaultOutcomes)})
+	}
+	acts := []string{"xrTouch", "xrTouch", "xrTouch", "xrRemove", "xrRemove", "xrDelete", "xrCreate", "claimDelete", "claimTouch", "claimTouch", "claimTouch", "claimRetype"}
+	if world {
+		acts = append(acts, "xrCreate", "xrBind", "xrBind")
+	}
+	for j, n := 0, Pick(r, []int{0, 0, 1, 1, 2, 3}); j < n; j++ {
+		e := c06Env{After: r.Range(-1, 7), Act: Pick(r, acts)}
+		if strings.HasPrefix(e.Act, "xr") {
+			e.Name = Pick(r, names)
+		}
+		if e.Act == "claimRetype" {
+			t := c06XRefTypes[Pick(r, []string{"v1", "v1a1", "v1a1", "grp", "kind", "none"})]
+			e.G, e.V, e.K = t[0], t[1], t[2]
+		}
+		if e.Act == "xrCreate" || e.Act == "xrBind" {
+			// only in a world with other claims does anybody but this controller set a claimRef; the claims
+			// named here have no controller run in the scenario (c06CRefVariant: none of them is a peer)
+			ref := c06Ref{}
+			if world && (e.Act == "xrBind" || r.Chance(2, 3)) {
+				ref = c06CRefVariant(Pick(r, []string{"name", "name", "ns", "kind", "ver", "nons"}))
+				ref.UID = r.Chance(1, 6)
+			}
+			e.Ref = &ref
+		}
+		*envID++
+		e.ID = *envID
+		rec.Env = append(rec.Env, e)
+	}
+	return rec
 }
 
 // c06GenXRef: the claim's spec.resourceRef naming XR `name` under every kind of apiVersion/kind
@@ -988,8 +1439,6 @@ func c06Gen(r *Rng, tier string) c06Scn {
 		}
 		s.XRs = append(s.XRs, c06GenXR(r, n, v))
 	}
-	names := append([]string{}, c06SeedNames...)
-	names = append(names, "c-1", "c-2")
 	nrec := r.Range(1, 4)
 	// the XRD's referenceable version: fixed for the whole history, or switched between reconciles
 	// (the controller is restarted for the other served version)
@@ -1002,36 +1451,16 @@ func c06Gen(r *Rng, tier string) c06Scn {
 		switching = true
 	}
 	envID := 0
+	world := r.Chance(1, 3)
 	for i := 0; i < nrec; i++ {
-		rec := c06Rec{XRV: baseVer, Faults: []c06Fault{}, Env: []c06Env{}, XLag: []int{}}
+		ver := baseVer
 		if switching {
-			rec.XRV = Pick(r, vers)
+			ver = Pick(r, vers)
 		}
-		if r.Chance(1, 2) {
-			rec.Lag = r.Range(1, c06MaxLag)
-		}
-		if r.Chance(1, 3) {
-			for j, n := 0, r.Range(1, 4); j < n; j++ {
-				rec.XLag = append(rec.XLag, Pick(r, []int{0, 1, 1, 2, 3}))
-			}
-		}
-		for j, n := 0, Pick(r, []int{0, 1, 1, 1, 2}); j < n; j++ {
-			rec.Faults = append(rec.Faults, c06Fault{K: r.Intn(9), O: Pick(r, []string{"fail", "conflict", "crashBefore", "crashAfter", "crashAfter"})})
-		}
-		for j, n := 0, Pick(r, []int{0, 0, 1, 1, 2, 3}); j < n; j++ {
-			e := c06Env{After: r.Range(-1, 7), Act: Pick(r, []string{"xrTouch", "xrTouch", "xrTouch", "xrRemove", "xrDelete", "claimDelete", "claimTouch", "claimTouch", "claimTouch", "claimRetype"})}
-			if strings.HasPrefix(e.Act, "xr") {
-				e.Name = Pick(r, names)
-			}
-			if e.Act == "claimRetype" {
-				t := c06XRefTypes[Pick(r, []string{"v1", "v1a1", "v1a1", "grp", "kind", "none"})]
-				e.G, e.V, e.K = t[0], t[1], t[2]
-			}
-			envID++
-			e.ID = envID
-			rec.Env = append(rec.Env, e)
-		}
-		s.Recs = append(s.Recs, rec)
+		s.Recs = append(s.Recs, c06GenRec(r, ver, &envID, world))
+	}
+	if world {
+		c06GenPeers(r, &s, &envID)
 	}
 	return s
 }
@@ -1051,6 +1480,7 @@ func c06Cls(s *c06Scn, o c06Obs) string {
 		}
 	}
 	stale, crash, errf, env, created, upg, del, xstale, retyped, vsw := false, false, false, false, false, false, false, false, false, false
+	cls, lost, wnf, cex, multi := false, false, false, false, false // injected error class, lost reply, a write answered NotFound / a create AlreadyExists by the store itself, >1 claim reconciled
 	for i, rec := range s.Recs {
 		stale = stale || rec.Read.Stale
 		for _, x := range rec.XReads {
@@ -1063,6 +1493,9 @@ func c06Cls(s *c06Scn, o c06Obs) string {
 		}
 		if i > 0 && rec.XRV != s.Recs[i-1].XRV {
 			vsw = true
+		}
+		if i > 0 && rec.Who != s.Recs[i-1].Who {
+			multi = true // the long-lived reconciler went from one claim to another
 		}
 		if rec.Read.Found && rec.Read.Ref != "" && !strings.HasPrefix(rec.Read.Ref, c06APIVersion(c06XRGVK.Group, ver)+"|"+c06XRGVK.Kind+"|") {
 			retyped = true // the reference the reconcile saw carries another apiVersion/kind than the controller's XR type
@@ -1080,6 +1513,12 @@ func c06Cls(s *c06Scn, o c06Obs) string {
 				if c.Outcome == "fail" || c.Outcome == "conflict" {
 					errf = true
 				}
+				for _, k := range c06FaultClasses {
+					cls = cls || c.Outcome == k
+				}
+				lost = lost || c.Outcome == "lost" || c.Outcome == "lostNoop"
+				wnf = wnf || (c.Outcome == "ok" && c.Verb != "get" && c.Err == "notFound")
+				cex = cex || (c.Outcome == "ok" && c.Verb == "create" && c.Err == "alreadyExists")
 			}
 			for _, e := range rec.Env {
 				if e.After >= 0 && e.After < n-1 {
@@ -1098,7 +1537,11 @@ func c06Cls(s *c06Scn, o c06Obs) string {
 	// A XR created/applied, D XR deleted, U managed-fields upgrade patch,
 	// T a reconcile saw a spec.resourceRef whose apiVersion/kind is not the controller's XR type,
 	// W the controller's XR version switched between two reconciles
-	return fmt.Sprintf("%s/%s/%s%s%s%s%s%s%s%s%s%s", s.Syncer, claimKind, b(stale, "S"), b(xstale, "X"), b(crash, "C"), b(errf, "F"), b(env, "E"), b(created, "A"), b(del, "D"), b(upg, "U"), b(retyped, "T"), b(vsw, "W"))
+	// K an injected API error class (NotFound, AlreadyExists, Invalid, Forbidden, timeout, deadline), L a reply lost after the
+	// call took effect, N a write answered NotFound / Y a Create answered AlreadyExists by the store itself (interference),
+	// M the one reconciler went from one claim to another; p<n> = n other claims in the world
+	return fmt.Sprintf("%s/p%d/%s/%s%s%s%s%s%s%s%s%s%s%s%s%s%s%s", s.Syncer, len(s.Peers), claimKind, b(stale, "S"), b(xstale, "X"), b(crash, "C"), b(errf, "F"), b(env, "E"), b(created, "A"), b(del, "D"), b(upg, "U"), b(retyped, "T"), b(vsw, "W"),
+		b(cls, "K"), b(lost, "L"), b(wnf, "N"), b(cex, "Y"), b(multi, "M"))
 }
 
 func c06Clone(s c06Scn) c06Scn {
@@ -1130,7 +1573,7 @@ func init() {
 				i++
 				ncalls := len(bobs.Recs[j].Calls)
 				for k := 0; k < ncalls; k++ {
-					for _, o := range []string{"fail", "conflict", "crashBefore", "crashAfter"} {
+					for _, o := range []string{"fail", "conflict", "crashBefore", "crashAfter", "lost", "notFound", "exists", "forbidden"} {
 						v := c06Clone(s)
 						v.Recs[j].Faults = []c06Fault{{K: k, O: o}}
 						obs, mons := c06Run(&v)
